@@ -21,9 +21,10 @@ d = P.driver('c14', ['<glm/glm.hpp>', '<glm/ext/scalar_ulp.hpp>', '<glm/ext/vect
                      '<glm/ext/matrix_relational.hpp>', '<glm/ext/quaternion_float.hpp>', '<glm/ext/quaternion_double.hpp>',
                      '<glm/ext/quaternion_relational.hpp>', '<glm/gtc/epsilon.hpp>'])
 contracts = []
-NMAX = 64          # bound of the scalar n-step obligations (reported as bounded, never as proved), thorough tier:
-                   # a chain of 64 dependent increments is ~10 min of SAT time per obligation (measured, cadical, idle machine)
-UNW_N = NMAX + 2   # loop of n <= 64 iterations: 65 tests of the loop condition
+# bound of the scalar n-step obligations in the thorough tier (reported as bounded, never as proved): a chain of 64 dependent
+# float increments is ~10 min of SAT time per obligation for float (cadical, idle machine); for double 64 did not finish within
+# an hour on the shared machine, so the double obligations are closed for n <= 32
+NMAX_T = {'f32': 64, 'f64': 32}
 NMAX_Q = 16        # the same obligations with bound 16 (seconds) for the per-change tier
 NMAX_V = 8         # bound of the vector n-step obligations (relational: two copies of every loop per component)
 UNW_NV = NMAX_V + 2
@@ -52,13 +53,11 @@ MATS = ((2, 2), (3, 2), (4, 4))   # (columns, rows)
 
 
 def tier_of(t, L=0, cost='int', variant=False):
-    """per-change ('quick') tier.  cost: 'int' = integer-only obligations (seconds); 'fp' = obligations containing float
-    subtractions twice, once in the code and once in the clause (tens of seconds per component); 'loop' = unwound n-step
-    loops.  variant = overload that only forwards to another one (vector-of-ULPs / vector-of-epsilon / gtc alias)."""
+    """per-change ('quick') tier.  cost: 'int' = obligations without float arithmetic of their own (integer-only, or relational
+    with the float subtraction abstracted): seconds; 'loop' = unwound n-step loops.  variant = overload that only forwards to
+    another one (vector-of-ULPs / vector-of-epsilon / gtc alias)."""
     if cost == 'int':
         ok = (t == 'f32' or L in (0, 4)) and not (variant and t == 'f64')
-    elif cost == 'fp':
-        ok = L == 0 or (t == 'f32' and not variant and L != 3)
     else:
         ok = L == 0 or (t == 'f32' and not variant and L in (2, 4))
     return 'quick' if ok else 'thorough'
@@ -94,11 +93,11 @@ def nstep_clause(t, x, n, r, sgn):
 
 # The step count is passed to the shims as int8_t (widened to int at the call of the GLM function): the translator
 # validation runs every shim natively on random arguments, and a random 32-bit step count would loop for 2^31 steps.
-# The contracts speak of 0 <= n <= 64 only, so nothing claimed is lost.
+# The contracts speak of 0 <= n <= 64 at most, so nothing claimed is lost.
 NT = 'int8_t'
 
 
-def n_req(ns, nmax=NMAX):
+def n_req(ns, nmax):
     return [('steps_0_to_%d' % nmax, ' && '.join('(s8)%s >= 0 && (s8)%s <= %d' % (n, n, nmax) for n in ns))]
 
 
@@ -106,7 +105,6 @@ def n_ins(L, name='n'):
     return [(NT, '%s%d' % (name, i)) for i in range(L)]
 
 
-BND = 'n <= %d' % NMAX
 BND_V = 'n <= %d' % NMAX_V
 for alias, (fnext, fprev, fdist, F1, FV) in (
         (False, ('nextFloat', 'prevFloat', 'floatDistance', 'glm/ext/scalar_ulp.inl', 'glm/ext/vector_ulp.inl')),
@@ -122,9 +120,9 @@ for alias, (fnext, fprev, fdist, F1, FV) in (
             d.shim(sn, cpp, [(cpp, 'x'), (NT, 'n')], 'return glm::%s(x, n);' % fname)
             C(sn, 'glm::%s(%s, int)  %s' % (fname, cpp, F1), unwind=NMAX_Q + 2, bounded='n <= %d' % NMAX_Q, requires=n_req(['n'], NMAX_Q),
               ensures=[('equals_n_single_steps', nstep_clause(t, 'x', 'n', 'RESULT', sgn))])
-            d.shim(sn + '64', cpp, [(cpp, 'x'), (NT, 'n')], 'return glm::%s(x, n);' % fname)
-            C(sn + '64', 'glm::%s(%s, int)  %s' % (fname, cpp, F1), 'thorough', unwind=UNW_N, bounded=BND, requires=n_req(['n']), timeout=3600,
-              ensures=[('equals_n_single_steps', nstep_clause(t, 'x', 'n', 'RESULT', sgn))])
+            d.shim(sn + '_deep', cpp, [(cpp, 'x'), (NT, 'n')], 'return glm::%s(x, n);' % fname)
+            C(sn + '_deep', 'glm::%s(%s, int)  %s' % (fname, cpp, F1), 'thorough', unwind=NMAX_T[t] + 2, bounded='n <= %d' % NMAX_T[t],
+              requires=n_req(['n'], NMAX_T[t]), timeout=3600, ensures=[('equals_n_single_steps', nstep_clause(t, 'x', 'n', 'RESULT', sgn))])
             for L in LS:
                 xs, ns = names(L, 'x'), names(L, 'n')
                 V = vec_t(L, t)
@@ -158,7 +156,7 @@ for alias, (fnext, fprev, fdist, F1, FV) in (
         ])
         sc = 'glm_%s_of_%s_%s_s' % (fdist, fnext, t)
         o, N = T['ord'] % 'x', '(s64)(s8)n'
-        for nm, nmax, tr, to in ((sc, NMAX_Q, 'quick', 900), (sc + '64', NMAX, 'thorough', 3600)):
+        for nm, nmax, tr, to in ((sc, NMAX_Q, 'quick', 900), (sc + '_deep', NMAX_T[t], 'thorough', 3600)):
             d.shim(nm, dret, [(cpp, 'x'), (NT, 'n')], 'return glm::%s(x, glm::%s(x, n));' % (fdist, fnext))
             C(nm, 'glm::%s(x, glm::%s(x, n))  %s' % (fdist, fnext, F1), tr, unwind=nmax + 2, bounded='n <= %d' % nmax, requires=n_req(['n'], nmax), timeout=to,
               ensures=[('distance_to_nth_successor_is_n', '!%s || !(%s + %s <= %s) || %s == %s' % (
@@ -255,6 +253,10 @@ for t, T in TY.items():
 # 3. equal / notEqual (x, y, epsilon), epsilonEqual / epsilonNotEqual        ... + glm/gtc/epsilon.inl
 # ======================================================================================================
 EP = 'glm/gtc/epsilon.inl'
+# The vector / matrix / quaternion obligations of this section say "same as the scalar overload, per component": both sides are
+# extracted code containing the same float subtraction, so it is abstracted as an uninterpreted function (sound for such
+# equalities; a failure under the abstraction is never reported, the engine re-runs the job with exact arithmetic).
+UF_REL = ('fsub',)
 for t, T in TY.items():
     cpp = T['cpp']
     for fname, eq, F_S, F_V in (('equal', True, SR, VR), ('notEqual', False, SR, VR), ('epsilonEqual', True, EP, EP), ('epsilonNotEqual', False, EP, EP)):
@@ -276,7 +278,7 @@ for t, T in TY.items():
                        'auto r = glm::%s(%s, %s, %s); %s' % (fname, vec_make(L, t, 'x'), vec_make(L, t, 'y'), earg, vec_store(L, 'r')),
                        outs=[('bool', 'out', L)])
                 C(v, 'glm::%s(vec<%d,%s>, vec<%d,%s>, %s epsilon)  %s' % (fname, L, cpp, L, cpp, 'vec<%d,%s>' % (L, cpp) if ve else cpp, F_V),
-                  tier_of(t, L, 'fp', ve), uses=[s],
+                  'quick', uses=[s], uf_float=UF_REL,
                   ensures=[('comp%d_same_as_scalar' % i, '(out[%d] != 0) == (%s(%s, %s, %s) != 0)' % (i, s, xs[i], ys[i], ee[i])) for i in range(L)])
         # quaternion overloads: x y z w <-> result components 0..3
         q = 'glm_%s_%s_q' % (tag, t)
@@ -284,7 +286,7 @@ for t, T in TY.items():
         ins = [(cpp, n) for n in ('ax', 'ay', 'az', 'aw', 'bx', 'by', 'bz', 'bw', 'e')]
         d.shim(q, 'void', ins, 'auto r = glm::%s(%s::wxyz(aw, ax, ay, az), %s::wxyz(bw, bx, by, bz), e); %s' % (fname, Q, Q, vec_store(4, 'r')),
                outs=[('bool', 'out', 4)])
-        C(q, 'glm::%s(qua<%s>, qua<%s>, %s epsilon)  %s' % (fname, cpp, cpp, cpp, EP if eps_family else QR), tier_of(t, 4, 'fp'), uses=[s],
+        C(q, 'glm::%s(qua<%s>, qua<%s>, %s epsilon)  %s' % (fname, cpp, cpp, cpp, EP if eps_family else QR), 'quick', uses=[s], uf_float=UF_REL,
           ensures=[('comp%s_same_as_scalar' % c, '(out[%d] != 0) == (%s(a%s, b%s, e) != 0)' % (i, s, c, c)) for i, c in enumerate('xyzw')])
         if eps_family:
             continue
@@ -304,7 +306,7 @@ for t, T in TY.items():
                     ens.append(('column%d_%s_components_same_as_scalar' % (c, 'all' if eq else 'any'),
                                 '(out[%d] != 0) == (%s)' % (c, (' && ' if eq else ' || ').join(calls))))
                 C(m, 'glm::%s(mat<%d,%d,%s>, mat<%d,%d,%s>, %s epsilon)  %s' % (fname, Cn, Rn, cpp, Cn, Rn, cpp, 'vec<%d,%s>' % (Cn, cpp) if ve else cpp, MR),
-                  'quick' if (t == 'f32' and (Cn, Rn) == (2, 2) and not ve) else 'thorough', uses=[s], ensures=ens)
+                  'quick', uses=[s], uf_float=UF_REL, ensures=ens)
 
 flat = P.build(d, 'flat')
 for fn, real, tier, kw in contracts:
